@@ -205,6 +205,12 @@ func clusterCase(c *corr.Ctx, spec runSpec, n int) (corr.Case, map[string]int, e
 			}
 		}
 	}
+	if spec.CheckQuorum || spec.Profile == "lease" {
+		stats["runs_check_quorum"]++
+	}
+	if spec.NoPreVote {
+		stats["runs_no_prevote"]++
+	}
 	if spec.Regions > 1 || spec.Profile == "tworegions" {
 		stats["runs_two_regions"]++
 	}
@@ -230,7 +236,7 @@ func runCluster(c *corr.Ctx) error {
 	c.Meta("run_module", "RunCluster")
 	c.Meta("exhaustive", false)
 	c.Meta("rule", "CPipe: random op sequences (nextProposalID with boundary terms, registerProposal incl. id 0 and duplicates, removeProposal, applyEntries over command / empty / undecodable / legacy / admin / conf-change entries and failing commands) on a bare commandPipeline; non-trivial = some waiter completed and ids were reused or several waiters existed. "+
-		"CCluster: 3 real store.Store on an in-memory transport; PRNG-driven delivery (30% out of order, 6% duplicated, 8% dropped), ticks, campaigns, leader transfers, single-store partitions, up to 2 store restarts from the store directory (WAL-backed raft logs), in 16 serial runs also storage faults (the tree's before-storage failpoint while a store handles a Ready, then the store dies and restarts), a quarter of the runs with MaxSizePerMsg=150 so committed entries are paged, scripted runs for a follower storage fault + crash + leader change and for a read on a new leader with a paged backlog on a zero-latency network, one region or (every second run) two regions sharing each store's pipeline, with a scripted two-region run where both leaders hand out the same request id, up to 9 client calls (put / get through ProposeCommand, get through ReadCommand) aimed 80% at a store that claims leadership; the observed trace (apply observer, read observer, call/return) is replayed through the model and judged by the spec oracles; non-trivial = at least 2 successful calls and a leader change, a restart or a served read; distinct by Gallina term")
+		"CCluster: 3 real store.Store on an in-memory transport; PRNG-driven delivery (30% out of order, 6% duplicated, 8% dropped), ticks, campaigns, leader transfers, single-store partitions, up to 2 store restarts from the store directory (WAL-backed raft logs), in 16 serial runs also storage faults (the tree's before-storage failpoint while a store handles a Ready, then the store dies and restarts), a quarter of the runs with MaxSizePerMsg=150 so committed entries are paged, a third of the runs with raft CheckQuorum on and a fifth with PreVote off, scripted runs (PreVote on and off) for a read on a cut-off leader whose clock stalls under CheckQuorum while the others elect a leader and acknowledge an overwrite, scripted runs for a follower storage fault + crash + leader change and for a read on a new leader with a paged backlog on a zero-latency network, one region or (every second run) two regions sharing each store's pipeline, with a scripted two-region run where both leaders hand out the same request id, up to 9 client calls (put / get through ProposeCommand, get through ReadCommand) aimed 80% at a store that claims leadership; the observed trace (apply observer, read observer, call/return) is replayed through the model and judged by the spec oracles; non-trivial = at least 2 successful calls and a leader change, a restart or a served read; distinct by Gallina term")
 
 	if c.Replay != "" {
 		cases, err := c.ReplayCases()
@@ -297,10 +303,13 @@ func runCluster(c *corr.Ctx) error {
 		if i%4 == 1 {
 			sp.MaxMsg = 150 // committed entries are handed out a few at a time
 		}
+		sp.CheckQuorum = i%3 == 0 // the non-default raft option, in a third of the runs
+		sp.NoPreVote = i%5 == 2
 		specs = append(specs, sp)
 	}
 	// runs with storage faults use the tree's process-wide failpoint: they execute alone, before the others
-	serial := []runSpec{{Seed: 1, Profile: "storagefault"}, {Seed: 1, Profile: "backlog"}}
+	serial := []runSpec{{Seed: 1, Profile: "storagefault"}, {Seed: 1, Profile: "backlog"},
+		{Seed: 1, Profile: "lease"}, {Seed: 1, Profile: "lease", NoPreVote: true}}
 	for i, nf := 0, c.Scale(16, 400); i < nf; i++ {
 		serial = append(serial, runSpec{Seed: c.Rng.Int63(), Steps: 80 + c.Rng.Intn(120), Profile: "mixed", Regions: 1 + i%2, Faults: true})
 	}
